@@ -109,3 +109,16 @@ package typesystem
 //@   option stable t
 //@   loop 0 invariant forall j int :: 0 <= j && j <= $idx ==> typeDefined(t, relatedTypes[j].GetType()) && (relatedTypes[j].GetCondition() != "" ==> inDom(t.conditions, relatedTypes[j].GetCondition())) && (relatedTypes[j].GetRelation() != "" ==> relationDefined(t, relatedTypes[j].GetType(), relatedTypes[j].GetRelation()))
 //@   ensures @everyRestrictionChecked err == nil ==> forall j int :: 0 <= j && j < len(relatedTypes) ==> typeDefined(t, relatedTypes[j].GetType()) && (relatedTypes[j].GetCondition() != "" ==> inDom(t.conditions, relatedTypes[j].GetCondition())) && (relatedTypes[j].GetRelation() != "" ==> relationDefined(t, relatedTypes[j].GetType(), relatedTypes[j].GetRelation()))
+
+// ------------------------------------------------------------------ C18: every relation of a typesystem carries type info
+// tuple validation consults the type restrictions and the condition of a relation only when HasTypeInfo reports true;
+// New therefore stores every relation with a TypeInfo record (empty when the model gives no metadata for it), under
+// its own name, with the model's rewrite — and the typesystem returned is built over exactly these maps
+//@ func New(model) (t, err)
+//@   property C18 C17
+//@   option nosafety
+//@   option stable model
+//@   ensures @wired err == nil ==> t != nil && t.relations == relations && t.typeDefinitions == tds && t.ttuRelations == ttuRelations && t.conditions == uncompiledConditions
+//@   monitor relationsBuilt
+//@     before call builtin.mapupdate:openfgav1.Relation args m, k, v : assert m == tdRelations && v != nil && v.TypeInfo != nil && v.Name == k && k == relation && v.Rewrite == rewrite
+//@     before call builtin.mapupdate:openfgav1.TypeDefinition args m, k, v : assert m == tds && v == td && k == td.GetType()
